@@ -321,3 +321,19 @@ def classify_text(s):
         if k in s:
             return name
     return "plain"
+
+
+def reductions(case):
+    """Fewer texts (halves, then single texts), then shorter texts."""
+    texts, conv = case["texts"], case["convert"]
+    n = len(texts)
+    if n > 1:
+        for lo, hi in ((0, n // 2), (n // 2, n)):
+            yield dict(case, texts=texts[lo:hi], convert=conv[lo:hi] if isinstance(conv, list) else conv)
+        if n <= 16:
+            for i in range(n):
+                yield dict(case, texts=texts[:i] + texts[i + 1:], convert=(conv[:i] + conv[i + 1:]) if isinstance(conv, list) else conv)
+    for i, t in enumerate(texts[:8]):
+        if len(t) > 1:
+            for cut in (t[: len(t) // 2], t[len(t) // 2:], t[1:], t[:-1]):
+                yield dict(case, texts=texts[:i] + [cut] + texts[i + 1:])
